@@ -789,6 +789,16 @@ def wl_relations(run, rng, idx):
     study_group(run, rng, M, ["matrix", "diagram"][(idx // 2) % 2], sample=idx < 3)
 
 
+def wl_dense_rank3(run, rng, idx):
+    """all ordered label triples over {2..12, inf} (thorough) / a stride (quick)."""
+    k = len(LAB12)
+    code = idx if run.tier == "thorough" else (idx * 29 + 5) % (k ** 3)
+    p, q, r = LAB12[code % k], LAB12[(code // k) % k], LAB12[(code // (k * k)) % k]
+    M = ((1, p, r), (p, 1, q), (r, q, 1))
+    study_group(run, rng, M, ["matrix", "diagram"][(code // 7) % 2])
+    run.extra["dense_rank3_matrices"] = run.extra.get("dense_rank3_matrices", 0) + 1
+
+
 def linear(*labels):
     n = len(labels) + 1
     M = [[1 if i == j else 2 for j in range(n)] for i in range(n)]
@@ -957,8 +967,9 @@ def wl_tutorial(run, rng, idx):
 
 
 WORKLOADS = [
-    Workload("relations", wl_relations, quick=480, thorough=6400),
-    Workload("curated", wl_curated, quick=len(CURATED), thorough=4 * len(CURATED)),
+    Workload("relations", wl_relations, quick=400, thorough=24000),
+    Workload("dense-rank3", wl_dense_rank3, quick=100, thorough=len(LAB12) ** 3),
+    Workload("curated", wl_curated, quick=len(CURATED), thorough=16 * len(CURATED)),
     Workload("triangles", wl_triangles, quick=240, thorough=6 * len(TRIPLES)),
     Workload("tutorial", wl_tutorial, quick=2, thorough=4),
 ]
